@@ -369,7 +369,11 @@ where
         // in wasm sizeof usize is 4, so multiply our already 32 bit hash
         let mut ind = (needle.0.wrapping_mul(2654435769) as usize) & len_mask;
         let ptr = self.handles.as_ptr();
+        #[cfg(feature = "verif-hooks")]
+        let mut verif_steps = 0usize;
         loop {
+            #[cfg(feature = "verif-hooks")]
+            crate::verif::probe_step(&mut verif_steps, len, "HandleTable::find_ind");
             debug_assert!(ind < len);
             let k = unsafe { *ptr.add(ind) };
             if k == needle || k.0 == 0 {
@@ -605,7 +609,11 @@ unsafe impl<T, A> Sync for HandleTable<T, A> where A: Allocator + Sync {}
 #[inline]
 fn pad_pot(cap: usize) -> usize {
     let mut n = cap - 1; // to handle the case when cap is already POT
+    #[cfg(feature = "verif-hooks")]
+    let mut verif_steps = 0usize;
     while (n & (n - 1)) != 0 {
+        #[cfg(feature = "verif-hooks")]
+        crate::verif::probe_step(&mut verif_steps, 64, "handle_table::pad_pot");
         n = n & (n - 1); // unset the rightmost bit
     }
 
